@@ -60,6 +60,9 @@ func judge(t *testing.T, r *report.R, spec *CheckSpec, p *Plan) string {
 		return ""
 	}
 	h := report.Hash(p)
+	if n := tr.OverlappingStarts(); n > 0 {
+		v.Classes = append(v.Classes, "start-issued-while-a-stop-call-on-the-same-election-was-under-way")
+	}
 	r.Case(h, v.Nontrivial, v.Classes...)
 	if tr.ExcludedRestartAfterFailedStop > 0 {
 		r.Class("excluded:restart-after-unclean-stop(known finding C09/C20: restarted as a new election instead)", tr.ExcludedRestartAfterFailedStop)
